@@ -10,7 +10,9 @@ for src in probe/*.c; do
   [ -e "$src" ] || continue
   out="bin/$(basename "${src%.c}")"
   if [ ! -x "$out" ] || [ "$src" -nt "$out" ]; then
-    gcc -static -O1 -Wall -o "$out.tmp.$$" "$src" -lpthread && mv -f "$out.tmp.$$" "$out"
+    flags="-static -O1 -Wall"
+    case "$src" in */sysrun.c) flags="-static -nostdlib -ffreestanding -fno-builtin -fno-stack-protector -O1 -Wall" ;; esac
+    gcc $flags -o "$out.tmp.$$" "$src" && mv -f "$out.tmp.$$" "$out"
   fi
 done
 go build -tags verif -o "bin/vcheck.tmp.$$" ./cmd/vcheck && mv -f "bin/vcheck.tmp.$$" bin/vcheck
